@@ -1813,6 +1813,15 @@ void SZ_compress_args_double_NoCkRngeNoGzip_1D_pwr_pre_log(unsigned char** newBy
 	computeRangeSize_double(log_data, dataLength, &valueRangeSize, &medianValue_f);
 	if(fabs(min_log_data) > max_abs_log_data) max_abs_log_data = fabs(min_log_data);
 	double realPrecision = log2(1.0 + pwrErrRatio) - max_abs_log_data * 2.23e-16;
+	if(realPrecision <= 0)
+	{
+		//the requested ratio is below what the log2/exp2 round trip can resolve in this element type: keep the values exactly
+		*newByteData = (unsigned char*)malloc(3 + MetaDataByteLength_double + exe_params->SZ_SIZE_TYPE + 1 + sizeof(double)*dataLength);
+		SZ_compress_args_double_StoreOriData(oriData, dataLength, newByteData, outSize);
+		free(log_data);
+		free(signs);
+		return;
+	}
 	for(size_t i=0; i<dataLength; i++){
 		if(oriData[i] == 0){
 			log_data[i] = min_log_data - 2.0001*realPrecision;
@@ -1874,6 +1883,15 @@ void SZ_compress_args_double_NoCkRngeNoGzip_2D_pwr_pre_log(unsigned char** newBy
 	computeRangeSize_double(log_data, dataLength, &valueRangeSize, &medianValue_f);
 	if(fabs(min_log_data) > max_abs_log_data) max_abs_log_data = fabs(min_log_data);
 	double realPrecision = log2(1.0 + pwrErrRatio) - max_abs_log_data * 2.23e-16;
+	if(realPrecision <= 0)
+	{
+		//the requested ratio is below what the log2/exp2 round trip can resolve in this element type: keep the values exactly
+		*newByteData = (unsigned char*)malloc(3 + MetaDataByteLength_double + exe_params->SZ_SIZE_TYPE + 1 + sizeof(double)*dataLength);
+		SZ_compress_args_double_StoreOriData(oriData, dataLength, newByteData, outSize);
+		free(log_data);
+		free(signs);
+		return;
+	}
 	for(size_t i=0; i<dataLength; i++){
 		if(oriData[i] == 0){
 			log_data[i] = min_log_data - 2.0001*realPrecision;
@@ -1936,6 +1954,15 @@ void SZ_compress_args_double_NoCkRngeNoGzip_3D_pwr_pre_log(unsigned char** newBy
 	computeRangeSize_double(log_data, dataLength, &valueRangeSize, &medianValue_f);
 	if(fabs(min_log_data) > max_abs_log_data) max_abs_log_data = fabs(min_log_data);
 	double realPrecision = log2(1.0 + pwrErrRatio) - max_abs_log_data * 2.23e-16;
+	if(realPrecision <= 0)
+	{
+		//the requested ratio is below what the log2/exp2 round trip can resolve in this element type: keep the values exactly
+		*newByteData = (unsigned char*)malloc(3 + MetaDataByteLength_double + exe_params->SZ_SIZE_TYPE + 1 + sizeof(double)*dataLength);
+		SZ_compress_args_double_StoreOriData(oriData, dataLength, newByteData, outSize);
+		free(log_data);
+		free(signs);
+		return;
+	}
 	for(size_t i=0; i<dataLength; i++){
 		if(oriData[i] == 0){
 			log_data[i] = min_log_data - 2.0001*realPrecision;
